@@ -7,7 +7,13 @@
    models - the JSON encoder (Model/JsonEnc.v, for every write table satisfying the decidable condition
    nil_transparent, instantiated with the regenerated Gen/JsonW.v), Clean, the Flatten family, Recipients,
    ItemsEqual - in the second half of this file; correspondence of these models on values with nil-like items
-   planted at depth 1-3 by harness/c20.go (case files Cases_C20_deep). *)
+   planted at depth 1-3 by harness/c20.go (case files Cases_C20_deep).
+   The On.. helpers on LISTS (block "On.. helpers on lists" at the end): the bodies of On[T], OnObject, OnActivity,
+   OnIntransitiveActivity, OnQuestion, OnActor (and of every other On<X>) are regenerated from the source on every
+   run (Gen/OnT.v, translator/onloops.go) and interpreted (Model/OnTab.v); for every table satisfying the decidable
+   condition on_table_ok the callback is never handed a nil pointer for a member of a list and is handed exactly the
+   members that are not nil and not passed over as links, in order.  CollectionPath.Of / IRI / AddTo on every item,
+   lists included, with the panics of ofObject / ofActor as outcomes: Model/CollPath.v, block "collection paths". *)
 From AP.Model Require Import Prelude Vocab Bytes Pred Layout Views Conv NilMatrix.
 From AP.Model Require Import IriEq Recip Flatten Clean CleanGen Equal JsonTables JsonEnc JsonCodec NilEmbed.
 From AP.Gen Require Import Conv Helpers JsonW.
@@ -458,3 +464,225 @@ Example C20_changed_pred_rejected :
   diag_where (first_bad_pred fns_object_without_tombstone) = Some (B "IsObject", Some 0%nat) /\
   sem_pred fns_object_without_tombstone (B "IsObject") pg_tombstone = Ok false.
 Proof. repeat split; vm_compute; reflexivity. Qed.
+
+(* ---- the On.. helpers on lists (Model/OnTab.v over Gen/OnT.v; Proofs/OnTabP.v) *)
+From AP.Model Require Import TabEq OnTab OnGen CollIri CollPath.
+From AP.Proofs Require Import OnTabP CollPathP OnGenP.
+
+(* diagnosis first: when helpers.go moved, this is the obligation that fails; the error message names the helper and
+   says whether its shape changed or its loop lost the IsNil guard
+   ("Unable to unify None with Some (B "OnActor", true)") *)
+Theorem C20_on_table_first_bad : on_diag_where (first_bad_on gen_on_fns) = None.
+Proof. exact gen_on_first_bad_none. Qed.
+
+(* the condition on the table of this run: On[T], OnObject, OnActivity, OnIntransitiveActivity, OnQuestion, OnActor have
+   the shape `if it == nil ..; if IsItemCollection(it) { OnItemCollection(it, func(col) { for _, it := range ( *col) {
+   guard; recurse } }) }; v, err := To<X>(it); ..; fn(v)`, every one of their loops passes over a member for which
+   IsNil holds BEFORE converting it, OnPlace / OnProfile / OnTombstone have the same shape (any guard), and the ten
+   helpers that take one item theirs *)
+Theorem C20_on_table : on_table_ok gen_on_fns = true.
+Proof. exact gen_on_table_ok. Qed.
+
+(* the interpreter of the generated bodies IS the walk of the specification: for every table of the right shape,
+   every conversion table, every instantiation of T, every callback (it may return an error at any call, depending
+   on everything it was handed before), all items - lists nested to any depth - and any fuel from on_fuel up.
+   [visit] = the members in order; a member for which the guard holds is passed over; a list member is walked in
+   turn; any other member is converted - an error ends the walk with that error, otherwise the callback is handed
+   the pointer, and its error ends the walk *)
+Theorem C20_on_list_table_tie : forall conv targ cb tbl, on_shapes_ok tbl = true ->
+  forall h, In h list_helpers ->
+  exists g, struct_matches tbl h = Some g /\
+    forall i fuel, (on_fuel i <= fuel)%nat ->
+      run_on conv targ cb tbl fuel (fst h) i = visit_struct conv targ cb (snd h) g i [].
+Proof. exact list_helper_is_visit. Qed.
+
+Theorem C20_on_generic_table_tie : forall conv targ cb tbl, on_shapes_ok tbl = true ->
+  exists g, generic_matches tbl = Some g /\
+    forall i fuel, (on_fuel i <= fuel)%nat ->
+      run_on conv targ cb tbl fuel n_OnT i = visit_generic conv targ cb g i [].
+Proof. exact generic_helper_is_visit. Qed.
+
+(* the helpers that take one item (OnItemCollection, OnLink, OnCollection, OnCollectionPage, OnOrderedCollection,
+   OnOrderedCollectionPage, OnRelationship): nothing for the untyped nil, otherwise the conversion and the callback *)
+Theorem C20_on_plain_table_tie : forall conv targ cb tbl, on_shapes_ok tbl = true ->
+  forall h, In h plain_helpers -> forall i fuel, (1 <= fuel)%nat ->
+    run_on conv targ cb tbl fuel (fst h) i =
+    match i with INil => ([], r_nil) | _ => visit_one conv targ cb (snd h) i [] end.
+Proof. exact plain_helper_is_visit_one. Qed.
+
+(* NEVER a nil pointer: for every table satisfying the condition, every conversion table read through
+   Model/Conv.conv_item (C20_on_conversions_good: whatever the table says), every callback, every list - whatever
+   its members: untyped nil, typed nil pointers of any kind, empty and "-" IRIs, nil lists, nested lists of those -
+   no argument of the callback is a nil pointer (nor, for On[T] with a pointer type, the address of one) *)
+Theorem C20_on_list_never_nil : forall conv targ cb tbl, conv_good conv -> on_table_ok tbl = true ->
+  forall h, In h struct_helpers -> forall i fuel, is_item_collection i = true -> (on_fuel i <= fuel)%nat ->
+    no_nil (fst (run_on conv targ cb tbl fuel (fst h) i)).
+Proof. exact on_list_never_nil. Qed.
+
+Theorem C20_on_generic_never_nil : forall conv targ cb tbl, conv_good conv -> on_table_ok tbl = true ->
+  forall i fuel, is_item_collection i = true -> (on_fuel i <= fuel)%nat ->
+    no_nil (fst (run_on conv targ cb tbl fuel n_OnT i)).
+Proof. exact on_generic_never_nil. Qed.
+
+Theorem C20_on_conversions_good : forall layout_of sizeof_kind refl ct,
+  conv_good (conv_of_tables layout_of sizeof_kind refl ct).
+Proof. exact conv_of_tables_good. Qed.
+
+(* EXACTLY the members that are not nil and not passed over as links, in order: what the callback was handed is the
+   list of converted pointers of a prefix of [kept g i] (nested lists opened, in order); the whole of it when the
+   walk ends without an error; and [kept g i] holds no member for which IsNil holds, no link when the loop passes
+   over links, no list *)
+Theorem C20_on_list_exact : forall conv targ cb tbl, on_table_ok tbl = true ->
+  forall h, In h struct_helpers -> forall i fuel, is_item_collection i = true -> (on_fuel i <= fuel)%nat ->
+  exists g k,
+    struct_matches tbl h = Some g /\
+    fst (run_on conv targ cb tbl fuel (fst h) i) = map (ptr_of conv targ (snd h)) (firstn k (kept g i)) /\
+    (snd (run_on conv targ cb tbl fuel (fst h) i) = r_nil -> k = length (kept g i)) /\
+    (forall m, In m (kept g i) ->
+       is_nil m = false /\ (guard_skips_links g = true -> is_link m = false) /\ is_item_collection m = false).
+Proof. exact on_list_exact. Qed.
+
+Theorem C20_on_generic_exact : forall conv targ cb tbl, on_table_ok tbl = true ->
+  forall i fuel, is_item_collection i = true -> (on_fuel i <= fuel)%nat ->
+  exists g k,
+    generic_matches tbl = Some g /\
+    fst (run_on conv targ cb tbl fuel n_OnT i) = map (ptr_of conv targ n_ToT) (firstn k (kept g i)) /\
+    (snd (run_on conv targ cb tbl fuel n_OnT i) = r_nil -> k = length (kept g i)) /\
+    (forall m, In m (kept g i) ->
+       is_nil m = false /\ (guard_skips_links g = true -> is_link m = false) /\ is_item_collection m = false).
+Proof. exact on_generic_exact. Qed.
+
+(* the guards found on this run: every one of the six passes over nil members *)
+Example C20_on_guards :
+  map (fun h => option_map guard_skips_nil (struct_matches gen_on_fns h)) struct_helpers =
+    [Some true; Some true; Some true; Some true; Some true] /\
+  option_map guard_skips_nil (generic_matches gen_on_fns) = Some true.
+Proof. exact gen_on_guards. Qed.
+
+(* the pinned loops (before fix 7c6ad9d: OnObject / OnActivity / OnActor passed over links only, On /
+   OnIntransitiveActivity / OnQuestion over nothing): same shape, the condition REJECTS them and names the first loop
+   without the guard ... *)
+Example C20_on_table_rejects_pinned :
+  on_shapes_ok pinned_on_fns = true /\ on_table_ok pinned_on_fns = false /\
+  on_diag_where (first_bad_on pinned_on_fns) = Some (B "OnObject", true).
+Proof. exact pinned_on_rejected. Qed.
+
+(* ... and on the witness ItemCollection{nil pointer to Object} every one of the six hands its callback a nil pointer
+   (On[T] with T a pointer type: the address of a variable holding one), where the repaired loops hand it nothing *)
+Theorem C20_on_list_pinned_refuted :
+  exists i, is_item_collection i = true /\
+    forallb (fun n => existsb arg_is_nil (fst (on_pinned t_object_ptr cb_ok n i))) six_names = true /\
+    map (fun n => on_gen t_object_ptr cb_ok n i) six_names =
+      [([], Ok [OvNil]); ([], Ok [OvNil]); ([], Ok [OvNil]); ([], Ok [OvNil]); ([], Ok [OvNil]); ([], Ok [OvNil])].
+Proof. exists on_witness. split; [reflexivity|]. exact (proj2 pinned_on_hands_nil). Qed.
+
+(* a source that drops the guard of ONE loop: refused, the loop named; the meaning of the changed table is the defect *)
+Example C20_on_dropped_guard_rejected :
+  on_table_ok (drop_nil_guard (B "OnActor") gen_on_fns) = false /\
+  on_shapes_ok (drop_nil_guard (B "OnActor") gen_on_fns) = true /\
+  on_diag_where (first_bad_on (drop_nil_guard (B "OnActor") gen_on_fns)) = Some (B "OnActor", true) /\
+  run_on gen_conv t_object cb_ok (drop_nil_guard (B "OnActor") gen_on_fns) (on_fuel on_witness) (B "OnActor") on_witness
+    = ([OvItem (ITNil KActor)], Ok [OvNil]).
+Proof. exact dropped_guard_rejected. Qed.
+
+(* non-vacuity: a list with a typed nil pointer, the untyped nil, a link, a "-" IRI, a nested list (actor, typed nil,
+   nil list), a list of nil IRIs and three objects - OnObject hands over the three structs in order (the actor seen
+   as an Object), stops at the callback's error, OnActor stops at the first member that is no actor *)
+Example C20_on_list_example :
+  on_gen t_object cb_ok (B "OnObject") og_list =
+    ([OvItem (og_obj "a");
+      OvItem (IObj true KObject [(F_ID, FStr (B "b")); (F_Type, FStr (B "Person"))]);
+      OvItem (og_obj "c")], Ok [OvNil]) /\
+  on_gen t_object cb_err_at_2 (B "OnObject") og_list =
+    ([OvItem (og_obj "a"); OvItem (IObj true KObject [(F_ID, FStr (B "b")); (F_Type, FStr (B "Person"))])], Ok [OvErr]) /\
+  on_gen t_object cb_ok (B "OnActor") og_list = ([], Ok [OvErr]) /\
+  kept GNilOrLink og_list = [og_obj "a"; og_actor "b"; og_obj "c"] /\
+  is_item_collection og_list = true.
+Proof. exact on_example. Qed.
+
+(* observed, modelled, NOT judged: OnPlace, OnProfile and OnTombstone walk lists with the loops the repair did not
+   touch (on the tree of this delivery: links only, links only, no guard), so a typed nil member reaches their
+   callback as a nil pointer - inside the letter of the property ("at worst a nil pointer"); no function of the
+   package hands them a list.  Stated so that it holds before and after such a repair: each of the three either passes
+   over nil members or hands over the nil pointer *)
+Example C20_on_other_list_helpers :
+  forallb (fun h => match struct_matches gen_on_fns h with
+                    | Some g => guard_skips_nil g || existsb arg_is_nil (fst (on_gen t_object cb_ok (fst h) on_witness))
+                    | None => false
+                    end) other_list_helpers = true.
+Proof. exact other_list_helpers_state. Qed.
+
+(* ---- collection paths (Model/CollPath.v; Proofs/CollPathP.v) *)
+
+(* CollectionPath.Of / IRI / AddTo NEVER panic: for every conversion table read through Model/Conv.conv_item, every
+   path name and EVERY item - single values, lists whose members may be nil-like in any way, nested lists - provided
+   the loop of OnObject passes over the members for which IsNil holds (its guard is a parameter of the model;
+   C20_paths_guard reads it off the table of this run).  The nil dereferences of ofObject / ofActor and of the
+   closures of AddTo are Panic outcomes of the model; the theorem says they are unreachable *)
+Theorem C20_paths_never_panic : forall conv g, conv_good conv -> conv_no_panic conv -> guard_skips_nil g = true ->
+  forall t i,
+    is_panic (of_path conv g t i) = false /\ is_panic (iri_path conv g t i) = false /\ is_panic (add_to_path conv t i) = false.
+Proof.
+  intros conv g H1 H2 H3 t i. split; [|split].
+  - exact (of_path_ok conv g H1 H2 H3 t (item_size i) i (le_n _)).
+  - exact (iri_path_ok conv g H1 H2 H3 t i).
+  - exact (add_to_path_ok conv H1 H2 t i).
+Qed.
+
+Theorem C20_paths_conversions_no_panic : forall layout_of sizeof_kind refl ct,
+  conv_no_panic (conv_of_tables layout_of sizeof_kind refl ct).
+Proof. exact conv_of_tables_no_panic. Qed.
+
+Theorem C20_paths_guard : guard_skips_nil gen_g_obj = true.
+Proof. exact gen_g_obj_skips_nil. Qed.
+
+(* with the pinned loop of OnObject (links only) Of panics on the witness for every path; the repaired walk answers
+   with the list of the members' collections *)
+Theorem C20_paths_pinned_refuted :
+  exists i, forallb (fun t => is_panic (of_path_pinned gen_conv t i)) all_paths = true /\
+            of_path_pinned gen_conv (B "likes") i = Panic NilDeref /\
+            of_path gen_conv gen_g_obj (B "likes") i = Ok (IItems false (Some [INil])).
+Proof. exists on_witness. destruct paths_pinned_panic as [A [_ [B0 C]]]. split; [exact A|split; [exact B0|exact C]]. Qed.
+
+(* non-vacuity, and what Of does on a list: the last member OnObject gets to decides (typed nil members are passed
+   over); an IRI member ends the walk before the closure runs, so the list of the members' collections stands; on single
+   objects and actors the model agrees with Model/CollIri.v of property C15 (compared case by case in
+   Cases_C20_paths, not proved) *)
+Example C20_paths_example :
+  of_path gen_conv gen_g_obj (B "likes") cp_obj = Ok (IIri false (B "https://example.com/o/l")) /\
+  of_path gen_conv gen_g_obj (B "inbox") cp_actor = Ok (IIri false (B "https://example.com/a/in")) /\
+  of_path gen_conv gen_g_obj (B "likes") (IItems false (Some [ITNil KObject; cp_obj; ITNil KActor])) = Ok (IIri false (B "https://example.com/o/l")) /\
+  of_path gen_conv gen_g_obj (B "likes") (IItems false (Some [cp_obj; cp_actor])) = Ok (IIri false (B "https://example.com/a/likes")) /\
+  of_path gen_conv gen_g_obj (B "inbox") (IItems false (Some [IIri false (B "https://example.com/i"); cp_actor])) =
+    Ok (IItems false (Some [IIri false (B "https://example.com/i/inbox"); IIri false (B "https://example.com/a/in")])) /\
+  iri_path gen_conv gen_g_obj (B "inbox") (IItems false (Some [ITNil KActor])) = Ok (B "/inbox") /\
+  add_to_path gen_conv (B "likes") (IItems false (Some [ITNil KObject])) = Ok (B "-", false, IItems false (Some [ITNil KObject])) /\
+  coll_of (B "likes") cp_obj = Some (IIri false (B "https://example.com/o/l")) /\
+  coll_of (B "inbox") cp_actor = Some (IIri false (B "https://example.com/a/in")).
+Proof. exact paths_example. Qed.
+
+(* ---- Append of a nil-like item (the rows the matrix judges for "no panic and the returned value" only) *)
+From AP.Model Require Import GoBody CollTab CollGen.
+From AP.Proofs Require Import NilAppendP.
+From AP.Model Require ItemsEqTab.
+
+(* what the code does, stated over the regenerated body of (ptr ItemCollection).Append (Gen/CollT.v, the tables of
+   property C13): for every body table and ItemsEqual-helper table satisfying C13's conditions, Append(n) of an item n
+   for which IsNil holds returns the nil error and makes n a MEMBER of the list - a typed nil pointer goes in as it
+   is - unless the list already holds a member for which IsNil holds (ItemsEqual identifies all of them), in which
+   case the list is unchanged.  Whether a nil-like member is wanted is not judged (Appendix A); Cases_C20_append
+   compares the real code with this function *)
+Theorem C20_append_nil_like : forall tbl, coll_table_ok tbl = true -> forall ietbl, ic_callees_ok ietbl = true ->
+  forall lo n, is_nil n = true ->
+    run_named (coll_env_t ietbl) tbl n_ic_append (Some (pic lo)) [vitems (Some [n])]
+    = Ok ([GvNil], Some (pic (append_nil_like lo n))).
+Proof. exact append_nil_like_tie. Qed.
+
+Example C20_append_nil_like_example :
+  append_nil_like (Some [IIri false (B "https://example.com/a")]) (ITNil KObject)
+    = Some [IIri false (B "https://example.com/a"); ITNil KObject] /\
+  append_nil_like (Some [IIri false (B "https://example.com/a"); INil]) (ITNil KObject)
+    = Some [IIri false (B "https://example.com/a"); INil] /\
+  append_nil_like None INil = Some [INil] /\
+  append_nil_like (Some [IIri false (B "-")]) (ITNil KActor) = Some [IIri false (B "-")].
+Proof. exact append_nil_like_examples. Qed.
